@@ -41,7 +41,7 @@ TEXT = {
              "and 22 (serializer20) hand-written golden encodings are checked in both directions on every run. The "
              "truncation target decodes every prefix 0..n of an encoding through the bounded storage reader and drives "
              "load()/loads() with requests larger than what is left. Absence of defects beyond the explored inputs is "
-             "not established. Empty igris::buffer values without storage are serialized as well.",
+             "not established. Empty igris::buffer values without storage are serialized as well. One view object is re-used for consecutive fields of equal length that agree up to a NUL.",
     "note": "Trusted: the harness' reference encoder (itself held to the hand-written golden bytes), clang ASan/UBSan, "
             "little-endian host for the golden table. Outside the family because they do not compile: archive system "
             "- char, bool, long long, unsigned long long, vector<bool> (no load overload / no data()); serializer20 - "
